@@ -39,13 +39,14 @@ Definition C06_chunking_invariant_open : Prop :=
 (* ---------------------------------------------------------------- never another name (all inputs) *)
 (* For EVERY byte string and every capacity: a reported name is the body of a host_name entry
    (type byte 0, two length bytes) lying inside the slice, trailing dot dropped.  No invented names. *)
-(* OPEN: stated at full strength, not yet proved; re-observed on every generated case (model = spec). *)
-Definition C06_only_carried_name_open : Prop :=
+Theorem C06_only_carried_name :
   forall (data slack n : bytes),
     extract_sni_bytes data slack = Found n ->
     exists p b1 b2, 3 <= p /\ p + (b1 * 256 + b2) <= blen data
                     /\ sub data (p - 3) p = [0; b1; b2]
                     /\ n = strip_dot (sub data p (p + (b1 * 256 + b2))).
+Proof. exact C06_only_carried_name_proof. Qed.
+Print Assumptions C06_only_carried_name.
 
 (* ---------------------------------------------------------------- never out of bounds *)
 (* For ALL byte strings the extractor stays inside its slice even when no capacity follows it (the
